@@ -916,6 +916,12 @@ func genRepl(r *rng.R, cur repl, malformed bool) repl {
 		case 1:
 			c.Iso = pickS(r, "rack", "nolabel")
 			c.Labels = []string{"zone"}
+			if r.Pct(50) {
+				// an isolation level that differs from a configured label only in letter case / surrounding blanks: NOT that label
+				// (the consumer compares exactly)
+				c.Labels = []string{"zone", "rack", "host"}
+				c.Iso = pickS(r, "Host", "ZONE", "Rack", " zone", "host ")
+			}
 		case 2:
 			c.Labels = append(c.Labels, pickS(r, "", "-x", "a b", "x-", "$", "$z.1"))
 		case 3:
